@@ -51,8 +51,9 @@ func (c hookCase) String() string {
 }
 
 // hookCases: all multisets of at most maxHooks hooks, each hook being a
-// non-empty stage set and any subset of the three principals.
-func hookCases(maxHooks int) []hookCase {
+// non-empty stage set and any subset of the three principals; beyond that, up
+// to extraHooks hooks restricted to the stage set {pre-commit, pre-push}.
+func hookCases(maxHooks, extraHooks int) []hookCase {
 	opts := []hookSpec{}
 	for s := 1; s <= 3; s++ {
 		for p := 0; p < 8; p++ {
@@ -60,19 +61,22 @@ func hookCases(maxHooks int) []hookCase {
 		}
 	}
 	out := []hookCase{{}}
-	var rec func(start int, cur []hookSpec)
-	rec = func(start int, cur []hookSpec) {
-		if len(cur) > 0 {
+	var rec func(opts []hookSpec, limit, min, start int, cur []hookSpec)
+	rec = func(opts []hookSpec, limit, min, start int, cur []hookSpec) {
+		if len(cur) >= min && len(cur) > 0 {
 			out = append(out, hookCase{Hooks: append([]hookSpec{}, cur...)})
 		}
-		if len(cur) == maxHooks {
+		if len(cur) == limit {
 			return
 		}
 		for i := start; i < len(opts); i++ {
-			rec(i, append(cur, opts[i]))
+			rec(opts, limit, min, i, append(cur, opts[i]))
 		}
 	}
-	rec(0, nil)
+	rec(opts, maxHooks, 1, 0, nil)
+	if extraHooks > maxHooks {
+		rec(opts[16:], extraHooks, maxHooks+1, 0, nil)
+	}
 	return out
 }
 
@@ -141,7 +145,7 @@ func (w *hookWorld) buildState(hs []hookSpec) (*policy.State, error) {
 				pids = append(pids, w.ids[b])
 			}
 		}
-		if _, err := root.AddHook(stages, hookName(i), pids, map[string]string{gitinterface.GitBlobHashName: id.String(), gitinterface.SHA256HashName: hex.EncodeToString(sum[:])}, tuf.HookEnvironmentLua, 5); err != nil {
+		if _, err := root.AddHook(stages, hookName(i), pids, map[string]string{gitinterface.GitBlobHashName: id.String(), gitinterface.SHA256HashName: hex.EncodeToString(sum[:])}, tuf.HookEnvironmentLua, 100); err != nil {
 			return nil, err
 		}
 	}
@@ -307,15 +311,14 @@ func complement(hs []hookSpec) []hookSpec {
 }
 
 func checkHookSelection(t *testing.T, col *evid.Collector, offset int) {
-	maxHooks := 2
+	maxHooks, extra := 1, 2
 	if evid.Thorough() {
-		maxHooks = 3
+		maxHooks, extra = 2, 3
 	}
-	col.Bound("hooks_max", maxHooks)
-	cases := hookCases(maxHooks)
+	col.Bound("hooks_max_all_stage_sets", maxHooks)
+	col.Bound("hooks_max_both_stages_only", extra)
+	cases := hookCases(maxHooks, extra)
 	col.Bound("hook_assignments", len(cases))
-	var w *hookWorld
-	n := 0
 	for i, c := range cases {
 		if !evid.Mine(offset + i) {
 			continue
@@ -323,15 +326,12 @@ func checkHookSelection(t *testing.T, col *evid.Collector, offset int) {
 		if col.Expired() {
 			return
 		}
-		if w == nil || n%40 == 0 {
-			// a fresh repository now and then keeps the RSL short
-			var err error
-			if w, err = newHookWorld(t); err != nil {
-				col.Fail("hooks: " + err.Error())
-				return
-			}
+		// a fresh repository per assignment: loading the policy re-verifies every earlier policy state
+		w, err := newHookWorld(t)
+		if err != nil {
+			col.Fail("hooks: " + err.Error())
+			return
 		}
-		n++
 		if i%4 == 1 {
 			c.Staged = complement(c.Hooks)
 		}
